@@ -19,6 +19,7 @@ EXPLANATION = (
     "(symtable scoping); str/bytes are never memoised; the pickle protocol is a pinned integer literal and the digest "
     "covers the whole stream; hash names are restricted. Discrimination of differing leaves is pickle's and md5's and is "
     "NOT decided; sets whose elements are only partially ordered are outside these clauses (DESIGN.md section 10)."
+    ' The digest returned by hash() is computed by a hasher constructed for that call on every path.'
 )
 ASSUMPTIONS = [
     "reference fact: pickle._Pickler saves dict via _batch_setitems and has dispatch entries save_set / save_frozenset iterating the container in hash order",
@@ -494,6 +495,26 @@ def pure(ctx):
     top = ctx.repo.func(HS, "hash")
     hc = [c for c in calls_in(top) if call_name(c) in ("Hasher", "NumpyHasher")]
     ctx.check(bool(hc), top, "every call of hash() builds a fresh Hasher")
+    # ... and the digest handed back is computed by such a fresh object on every path: every definition of the receiver of
+    # the returned `.hash(obj)` inside hash() is a constructor call (a hasher fetched from a cache / pool / attribute keeps
+    # its stream, memo and digest state - or is shared between threads)
+    n_ret = 0
+    for r in nodes_of_type(top, ast.Return):
+        v = r.value
+        if not (isinstance(v, ast.Call) and isinstance(v.func, ast.Attribute) and v.func.attr == "hash"):
+            continue
+        n_ret += 1
+        recv = v.func.value
+        if isinstance(recv, ast.Call):
+            ctx.check(call_name(recv) in ("Hasher", "NumpyHasher"), r, "the digest is computed by a hasher built for this call")
+            continue
+        nm = dotted(recv)
+        defs = [a for a in ast.walk(top) if isinstance(a, (ast.Assign, ast.AnnAssign, ast.AugAssign, ast.NamedExpr)) and nm in stores_to(a)]
+        notfresh = [a for a in defs if not (isinstance(getattr(a, "value", None), ast.Call) and call_name(a.value) in ("Hasher", "NumpyHasher"))]
+        ctx.check(bool(defs) and not notfresh, notfresh[0] if notfresh else r, "the digest is computed by a hasher built for this call (every definition of `%s` is a constructor call)" % nm,
+                  "`%s` may be `%s`: the hasher that computes the digest is not built for this call - state of an earlier digest (or of another thread's digest in progress) "
+                  "leaks into this one" % (nm, unparse(notfresh[0].value, 60) if notfresh and getattr(notfresh[0], "value", None) is not None else "?"))
+    ctx.need(n_ret >= 1, "hash() no longer returns <hasher>.hash(obj)")
 
 
 def run(ctx):
